@@ -527,17 +527,7 @@ func (u *vC08U) casePD(r *Resolver, sinkSrv *vC08Srv) {
 		pre = fmt.Sprintf("(Some (%s%%Z, 1%%N))", vC08Z(preExp))
 	}
 	coh := !info.incoherent
-	fkey := ""
-	validRef := coh && dns.IsSubDomain(rsz, z) && rsz != z && dns.IsSubDomain(z, q)
-	minTTL := int64(nsTTL)
-	for _, x := range dsTTLs {
-		if int64(x) < minTTL {
-			minTTL = int64(x)
-		}
-	}
-	if validRef && !preLive && minTTL*int64(time.Second) > 12*h && (!rsCutOK || rsCut > 12*h) {
-		fkey = "lease-12h-ceiling-answer-cut"
-	}
+	fkey := "" // no known finding is tolerated
 	kind := "pd-miss"
 	switch {
 	case outcome == 0:
